@@ -1020,7 +1020,20 @@ fn random_schedule(rng: &mut Rng, n: usize, interrupts: bool) -> (Vec<Ins>, Tail
     let mut s = Vec::new();
     let mut given = 0usize;
     let mut first = true;
-    while given < n && s.len() < 4000 {
+    // one long burst of back-to-back interruptions per schedule now and then: lengths at and around powers of two (a retry
+    // loop with a cap, or a retry counter in a narrow integer, gives up or wraps exactly there)
+    let burst_at = if interrupts && rng.chance(1, 200) { Some(rng.usize_below(n + 1)) } else { None };
+    let mut burst_done = false;
+    let mut plain = 0usize;
+    while given < n && plain < 4000 {
+        if let Some(at) = burst_at {
+            if !burst_done && given >= at {
+                burst_done = true;
+                let len = *rng.pick(&[255usize, 256, 257, 1023, 1024, 1025, 4096, 65_535, 65_536, 65_537]);
+                s.extend(std::iter::repeat(Ins::Interrupt).take(len));
+            }
+        }
+        plain += 1;
         if density > 0 && rng.below(100) < density {
             s.push(Ins::Interrupt);
             continue;
@@ -1343,6 +1356,7 @@ fn run_interleaved_writers_case(case_seed: u64, _only: Option<u64>, rep: &mut Re
     let r = catch(|| {
         let mut expected: Vec<Vec<u8>> = vec![Vec::new(); k];
         let mut log: Vec<String> = Vec::new();
+        let mut unwound = false;
         {
             let mut writers: Vec<Writer> = (0..k)
                 .map(|j| lib!(Writer::new(Box::new(SmallSink { out: sinks[j].clone(), cap: caps[j], calls: 0 }))))
@@ -1397,15 +1411,27 @@ fn run_interleaved_writers_case(case_seed: u64, _only: Option<u64>, rep: &mut Re
                     }
                 }
             }
-            // drop in a random order
-            while !writers.is_empty() {
-                let j = rng.usize_below(writers.len());
-                drop(writers.remove(j));
+            if rng.chance(1, 3) {
+                // dropped by unwinding: a panic (raised here, by the harness, without the panic hook) travels through the
+                // frame that owns the writers
+                unwound = true;
+                log.push("all writers dropped by an unwinding panic".to_string());
+                let r = std::panic::catch_unwind(std::panic::AssertUnwindSafe(move || {
+                    let _owned = writers;
+                    std::panic::resume_unwind(Box::new(0u8));
+                }));
+                assert!(r.is_err());
+            } else {
+                // drop in a random order
+                while !writers.is_empty() {
+                    let j = rng.usize_below(writers.len());
+                    drop(writers.remove(j));
+                }
             }
         }
         for j in 0..k {
             if *sinks[j].borrow() != expected[j] {
-                return Err((j, "after drop", log));
+                return Err((j, if unwound { "after drop by unwinding" } else { "after drop" }, log));
             }
         }
         Ok(expected.iter().map(|e| e.len()).sum::<usize>())
